@@ -163,7 +163,7 @@ deriving Repr, DecidableEq, Inhabited
 def intText (i : Int) : Text := (toString i).toList
 
 /-- `fmt.Sprintf("bytes=%d-%d", first, last)` -/
-def rangeText (first last : Int) : Text := "bytes=".toList ++ intText first ++ ['-'] ++ intText last
+def rangeText (first last : Int) : Text := ['b', 'y', 't', 'e', 's', '='] ++ intText first ++ ['-'] ++ intText last
 
 /-- the entry `LockCmd` appends for one resolved package -/
 def lockPkg (p : PkgRef) (x : Expanded) : LockEntry :=
